@@ -48,8 +48,8 @@ None == [none |-> TRUE]
 EvBits == {"IN", "OUT", "RDHUP"}
 Flags == {"ET", "ONESHOT"}
 
-CanRead(o)  == obj[o].kind \in {"sock", "pipe_r"}
-CanWrite(o) == obj[o].kind \in {"sock", "pipe_w"}
+CanRead(o)  == obj[o].kind \in {"sock", "pipe_r"} /\ ~obj[o].closed
+CanWrite(o) == obj[o].kind \in {"sock", "pipe_w"} /\ ~obj[o].closed
 
 \* ------------------------------------------------------------------ readiness of an object
 ReqEv(s, k, m) ==
@@ -109,7 +109,7 @@ AfterReport(reported) ==
         ELSE interest[o]]
 
 \* ------------------------------------------------------------------ actions
-NewObj(k) == [kind |-> k, rx |-> 0, full |-> FALSE, peer |-> "open"]
+NewObj(k) == [kind |-> k, rx |-> 0, full |-> FALSE, peer |-> "open", closed |-> FALSE]
 Init == /\ obj = [o \in Objs |-> NewObj(Kind[o])]
         /\ interest = [o \in Objs |-> None]
 
@@ -122,7 +122,7 @@ Touch(o, level) ==
 
 \* epoll_ctl(ADD): EEXIST if already there; ok otherwise
 Register(o, gen, m) ==
-    /\ ~Registered(o)
+    /\ ~Registered(o) /\ ~obj[o].closed
     /\ interest' = [interest EXCEPT ![o] = [data |-> DataOf(o, gen), mask |-> m, edge |-> "must", disabled |-> FALSE]]
     /\ UNCHANGED obj
 RegisterTwice(o) == Registered(o) /\ UNCHANGED vars                 \* result: EEXIST
@@ -130,9 +130,16 @@ Modify(o, gen, m) ==
     /\ Registered(o)
     /\ interest' = [interest EXCEPT ![o] = [data |-> DataOf(o, gen), mask |-> m, edge |-> "must", disabled |-> FALSE]]
     /\ UNCHANGED obj
-ModifyUnknown(o) == ~Registered(o) /\ UNCHANGED vars                \* result: ENOENT
+ModifyUnknown(o) == ~Registered(o) /\ ~obj[o].closed /\ UNCHANGED vars   \* result: ENOENT
 Unregister(o) == Registered(o) /\ interest' = [interest EXCEPT ![o] = None] /\ UNCHANGED obj
-UnregisterUnknown(o) == ~Registered(o) /\ UNCHANGED vars            \* result: ENOENT
+UnregisterUnknown(o) == ~Registered(o) /\ ~obj[o].closed /\ UNCHANGED vars \* result: ENOENT
+\* the owner closes the watched descriptor itself: the kernel drops the entry with the last
+\* reference to the open file (the driver holds no duplicate); from then on the object is never
+\* reported and every epoll_ctl on its number fails with EBADF
+CloseWatched(o) == /\ ~obj[o].closed
+                   /\ obj' = [obj EXCEPT ![o].closed = TRUE]
+                   /\ interest' = [interest EXCEPT ![o] = None]
+CtlOnClosed(o) == obj[o].closed /\ UNCHANGED vars                     \* result: EBADF
 
 PeerWrite(o) == /\ CanRead(o) /\ obj[o].peer = "open" /\ obj[o].rx < MaxRx
                 /\ obj' = [obj EXCEPT ![o].rx = @ + 1]
@@ -149,7 +156,7 @@ Fill(o) == /\ CanWrite(o) /\ obj[o].peer = "open" /\ ~obj[o].full
 PeerDrain(o) == /\ CanWrite(o) /\ obj[o].peer = "open" /\ obj[o].full
                 /\ obj' = [obj EXCEPT ![o].full = FALSE]
                 /\ Touch(o, IF Registered(o) /\ "OUT" \in interest[o].mask THEN "must" ELSE "may")
-ClosePeer(o) == /\ obj[o].peer = "open"
+ClosePeer(o) == /\ obj[o].peer = "open" /\ ~obj[o].closed
                 /\ obj' = [obj EXCEPT ![o].peer = "closed"]
                 /\ Touch(o, "must")
 
@@ -165,12 +172,14 @@ Wait(max, reported) ==
 
 Next == \/ \E o \in Objs, g \in 0..1, m \in Masks : Register(o, g, m) \/ Modify(o, g, m)
         \/ \E o \in Objs : \/ RegisterTwice(o) \/ ModifyUnknown(o) \/ Unregister(o) \/ UnregisterUnknown(o)
+                           \/ CloseWatched(o) \/ CtlOnClosed(o)
                            \/ PeerWrite(o) \/ ReadOne(o) \/ ReadAll(o) \/ Fill(o) \/ PeerDrain(o) \/ ClosePeer(o)
         \/ \E max \in 1..2, rep \in SUBSET Objs : Wait(max, rep)
 Spec == Init /\ [][Next]_vars
 
 \* ------------------------------------------------------------------ checked on the model
-TypeOK == /\ \A o \in Objs : obj[o].rx \in 0..MaxRx /\ obj[o].full \in BOOLEAN /\ obj[o].peer \in {"open", "closed"}
+TypeOK == /\ \A o \in Objs : obj[o].closed \in BOOLEAN
+          /\ \A o \in Objs : obj[o].rx \in 0..MaxRx /\ obj[o].full \in BOOLEAN /\ obj[o].peer \in {"open", "closed"}
           /\ \A o \in Objs : interest[o] = None \/ (interest[o].mask \in Masks /\ interest[o].edge \in {"must", "may", "no"})
 \* the oracle never demands the impossible: what must be reported may be reported, required
 \* events are allowed events, and every Wait has an admissible answer
@@ -184,6 +193,7 @@ LevelPersists == \A o \in Objs :
 OneshotSilent == \A o \in Objs : (Registered(o) /\ interest[o].disabled) => ~MayReport(o)
 EdgeSilent == \A o \in Objs : (Registered(o) /\ IsET(o) /\ interest[o].edge = "no") => ~MayReport(o)
 UnregisteredSilent == \A o \in Objs : ~Registered(o) => ~MayReport(o)
+ClosedSilent == \A o \in Objs : obj[o].closed => (~Registered(o) /\ ~MayReport(o))
 \* reachability probes (violated on purpose)
 ProbeEdgeNo == ~(\E o \in Objs : Registered(o) /\ IsET(o) /\ interest[o].edge = "no" /\ obj[o].rx > 0)
 ProbeDisabled == ~(\E o \in Objs : Registered(o) /\ interest[o].disabled /\ obj[o].rx > 0)
